@@ -114,7 +114,7 @@ fn base_trees() -> Vec<Tree> {
     vec![t1, t2, t3]
 }
 
-const N_MUT: usize = 21;
+const N_MUT: usize = 23;
 
 /// Apply mutation m to a tree. `files`, `dirs`, `links`: the first names of each kind in the base.
 fn mutate(t: &mut Tree, m: usize) {
@@ -235,6 +235,20 @@ fn mutate(t: &mut Tree, m: usize) {
             }
             if let Some(k) = first(t, &is_link, 0) {
                 t.get_mut(&k).unwrap().mtime.0 += 78;
+            }
+        }
+        21 => {
+            // only a special mode bit of a file changes (set-user-id)
+            if let Some(k) = first(t, &is_file, 1) {
+                let n = t.get_mut(&k).unwrap();
+                n.mode |= 0o4000;
+            }
+        }
+        22 => {
+            // only a special mode bit of a directory changes (sticky)
+            if let Some(k) = first(t, &is_dir, 0) {
+                let n = t.get_mut(&k).unwrap();
+                n.mode |= 0o1000;
             }
         }
         20 => {
@@ -436,7 +450,7 @@ pub fn run(report: &Report, budget: &Budget) {
     report.set("transitions", json!(n.load(AO::Relaxed) * 5));
     report.set("traces_validated_against_impl", json!(n.load(AO::Relaxed) * 5));
     report.set("exhaustive", json!(done == total));
-    report.set("explanation", json!("three base trees x every set of at most N mutations from a menu of 21 (content, size-only, mtime-only, chmod, chown, kind swaps, additions, removals, retargeted link): diff with and without include_unchanged and the next backup's change callback are compared with the difference of the two tree models"));
+    report.set("explanation", json!("three base trees x every set of at most N mutations from a menu of 23 (content, size-only, mtime-only, chmod, chown, kind swaps, additions, removals, retargeted link): diff with and without include_unchanged and the next backup's change callback are compared with the difference of the two tree models"));
     report.assume("the change callback is compared on paths that are regular files (in the new tree for '+' and '*', in the old one for '-'); a path that becomes a directory or symlink is left out, as the callback is only defined for files");
     report.assume("directory mtimes are not a change (as the implementation documents)");
 }
